@@ -47,6 +47,29 @@ type VdrSpec struct {
 type vdrEnt struct {
 	Kind string `json:"k"` // f d l
 	Size int64  `json:"s"`
+	// for a symbolic link: the size of what it points to (what a walk that
+	// starts at the link reports) and the link text
+	Follow int64  `json:"f,omitempty"`
+	Dest   string `json:"d,omitempty"`
+}
+
+// walkRootLink: a symbolic link directly below a job's files/ or tmp/
+// directory.  The VDR code walks every such child with util.Walk, which opens
+// (and thereby follows) its root.
+func walkRootLink(rel string, e vdrEnt) bool {
+	if e.Kind != "l" {
+		return false
+	}
+	base := path.Base(path.Dir(rel))
+	return base == "files" || base == "tmp"
+}
+
+// sizeAsWalked: the size the VDR code records for the entry.
+func sizeAsWalked(rel string, e vdrEnt) int64 {
+	if walkRootLink(rel, e) {
+		return e.Follow
+	}
+	return e.Size
 }
 
 // VdrViolation is a monitor failure found by the worker.
@@ -164,7 +187,12 @@ func lstatTree(root string) map[string]vdrEnt {
 		}
 		switch {
 		case info.Mode()&os.ModeSymlink != 0:
-			out[rel] = vdrEnt{Kind: "l"}
+			e := vdrEnt{Kind: "l", Size: info.Size(), Follow: info.Size()}
+			e.Dest, _ = os.Readlink(p)
+			if st, err := os.Stat(p); err == nil {
+				e.Follow = st.Size()
+			}
+			out[rel] = e
 		case info.IsDir():
 			out[rel] = vdrEnt{Kind: "d", Size: info.Size()}
 		default:
@@ -372,7 +400,18 @@ func (v *vdrRun) outsHook(job *TAJob, outs map[string]interface{}) {
 		}
 		switch {
 		case p.Tname.Tname == syntax.KindString && p.Tname.ArrayDim == 0 && p.Tname.MapDim == 0:
-			switch rng.Intn(4) {
+			switch rng.Intn(5) {
+			case 4: // the output names a symbolic link to data kept elsewhere below files/
+				real := path.Join(job.FilesPath, "real_"+p.Id, "data.bin")
+				lnk := path.Join(job.FilesPath, "lnk_"+p.Id+".dat")
+				if write(real, "linked "+job.Key+" "+p.Id) {
+					os.Remove(lnk)
+					if os.Symlink(real, lnk) == nil {
+						r.Written[lnk] = "linked " + job.Key + " " + p.Id
+						v.writtenBy[v.rel(lnk)] = job.Key
+						outs[p.Id] = lnk
+					}
+				}
 			case 0: // a path in a plain string
 				f := path.Join(job.FilesPath, "str_"+p.Id+".dat")
 				if write(f, "string-named "+job.Key+" "+p.Id) {
@@ -427,7 +466,7 @@ func (v *vdrRun) launchHook(job *TAJob) {
 	rels := make([]string, 0, len(ps))
 	for _, p := range ps {
 		rels = append(rels, v.rel(p))
-		if _, err := os.Lstat(p); err != nil {
+		if _, err := os.Stat(p); err != nil {
 			v.violate("C04", "property", "C04:arg-file-missing-at-start",
 				fmt.Sprintf("job %s starts but %s, named in its arguments, does not exist", job.Key, v.rel(p)),
 				map[string]interface{}{"event": len(v.r.Events), "args": string(compactJSON(job.Args))})
